@@ -847,6 +847,8 @@ def input_buffer_sites(fnode, names, mod=None, q=None, pkg=None, attrs=(), mods=
             if mods is not None and resolve_by_name(mods, mod, n):
                 continue                    # a method of a class of the package (receiver of unknown type: every method of that name)
             c = _canonical(mod, n.func)
+            if not c and isinstance(n.func, ast.Call):
+                c = _canonical(mod, n.func.func)       # a reader factory applied to the buffer: codecs.getreader(enc)(buffer)
             tail = c.split(".")[-1] if c else ""
             if isinstance(n.func, ast.Attribute) and isinstance(n.func.value, ast.Name) and n.func.value.id in ("logger", "logging", "log", "warnings"):
                 continue
